@@ -177,12 +177,15 @@ def alignment_for(spec):
         prof[n] = (F.indicator(spec["kind"], syms), numpy.array([pos[c[i]] for c in cols]))
         single[i] = {s: len(F.compatible_states(spec["kind"], s)) == 1 for s in syms}
     canon = numpy.array([all(single[i][s] for i, s in enumerate(c)) for c in cols])
+    states = set(F.states_of(spec["kind"]))
+    if not all(states <= set(sy) for sy in spec["symbols"]):
+        canon = None  # some tip does not range over all states: the sum over columns is not defined to be one
     nfirst = math.prod(len(s) for s in spec["symbols"])
     first = numpy.zeros(len(cols), bool)
     first[:nfirst] = True
     if len(_ALN_CACHE) > 6:
         _ALN_CACHE.clear()
-    _ALN_CACHE[key] = (aln, prof, canon & first, cols)
+    _ALN_CACHE[key] = (aln, prof, None if canon is None else canon & first, cols)
     return _ALN_CACHE[key]
 
 
@@ -435,7 +438,7 @@ def check_config(spec, acc, report=True):
             fail("lnL finite although a reported column likelihood is zero", {"got": lnL})
         acc.outcome(("lnL", "impossible column"))
     # layer 5: all canonical columns sum to one
-    if all(abs(numpy.array(P).sum(axis=1) - 1).max() < 1e-12 for P in discrete.values()):
+    if canon is not None and all(abs(numpy.array(P).sum(axis=1) - 1).max() < 1e-12 for P in discrete.values()):
         s = float(L[canon].sum())
         if not abs(s - 1) <= 1e-9 + len(edges) * slack:
             fail(f"likelihoods over all canonical columns do not sum to one [{kind}; {bins_class(spec)}]", {"sum": s})
